@@ -84,13 +84,14 @@ class Sys(e2.DevSys):
         self.prot.datagram_received(data, SRC, True)
 
     def live_at(self, T):
-        """services with a live stored offer when the round at T builds its entries.  An offer
-        delivered in the iteration of the round counts iff it was delivered before the timer (pre);
+        """services with a live stored offer when the round at T builds its entries.  Offers are handled
+        on arrival and the round's task resumes one iteration after its timer fired, so an offer
+        delivered in the iteration of the round's timer counts, before (pre) or after (post) the timer;
         an expiry at exactly T has already happened."""
         r = self.loop._clock_resolution
         live = {}
         for t, pos, kind, i, ttl in self.events:
-            before = t < T - r or (abs(t - T) < r and pos == "pre")
+            before = t < T - r or abs(t - T) < r
             if not before:
                 continue
             svc = self.svcs[i]
